@@ -273,20 +273,27 @@ for d in cands:
         shutil.rmtree(dst)
         continue
     names[name] = os.path.relpath(d, REPO)
-rcb, failing, outb = buildable(td, ["./..."])
 dropped = 0
-for name in list(names):
-    if ("example.com/c03td/" + name) in failing or re.search(r"(^|\n)%s[/\\]" % re.escape(name), outb):
-        shutil.rmtree(os.path.join(td, name), ignore_errors=True)
-        del names[name]
-        dropped += 1
-rcb2, failing2, outb2 = buildable(td, ["./..."]) if names else (0, set(), "")
-if rcb2 != 0:
+for _pass in range(10):
+    # go build stops early when a package cannot even be set up (missing imports), so repeat until it is clean
+    rcb, failing, outb = buildable(td, ["./..."]) if names else (0, set(), "")
+    if rcb == 0:
+        break
+    before = len(names)
     for name in list(names):
-        if ("example.com/c03td/" + name) in failing2 or name in outb2:
+        if ("example.com/c03td/" + name) in failing or re.search(r"(^|[\s:/])%s[/\\:]" % re.escape(name), outb):
             shutil.rmtree(os.path.join(td, name), ignore_errors=True)
             del names[name]
             dropped += 1
+    if len(names) == before:
+        # cannot tell which package is at fault: keep only packages that build on their own
+        for name in list(names):
+            rc1, _ = sh(["go", "build", "./" + name], cwd=td, timeout=600)
+            if rc1 != 0:
+                shutil.rmtree(os.path.join(td, name), ignore_errors=True)
+                del names[name]
+                dropped += 1
+        break
 if names:
     rc, so, se = run_sc(td, ["./..."], extra=["-tests=false"])
     bad = judge(rc, so, se)
@@ -307,11 +314,18 @@ if names:
                 if canon(detail) in seen or already(kind, detail):
                     continue
                 seen.add(canon(detail))
+                if kind in ("compile", "config") and sh(["go", "build", "./" + name], cwd=td, timeout=600)[0] != 0:
+                    notes.append("testdata package %s does not build; its compile problem is not counted" % names[name])
+                    continue
                 ck.violation("testdata:%s:%s:%s" % (names[name], kind, canon(detail)),
                              "staticcheck (all analyzers) on buildable testdata package %s: %s %s" % (names[name], kind, detail[:300]),
                              {"package": names[name], "stderr": se1[:3000]})
         for kind, detail in bad:
             if canon(detail) not in seen and not already(kind, detail):
+                m = re.search(r"example\.com/c03td/(\S+)", detail)
+                if kind in ("compile", "config") and m and sh(["go", "build", "./" + m.group(1)], cwd=td, timeout=600)[0] != 0:
+                    notes.append("testdata package %s does not build; its compile problem is not counted" % m.group(1))
+                    continue
                 ck.violation("testdata:%s:%s" % (kind, canon(detail)), "staticcheck (all analyzers) over the testdata module: %s %s" % (kind, detail[:300]), {"stderr": se[:3000]})
 
 if ck.thorough():
@@ -540,7 +554,7 @@ ck.finish({
     "evaluations": len(gen["Analyzers"]) * len(pkgs) + sum(r.get("packages", 1) for r in real_runs),
     "distinct_nontrivial": len(distinct_src),
     "rule": "evaluation = one analyzer run over one generated package (in process) or one package analysed by the real binary; distinct_nontrivial = generated packages with distinct source text (each contains at least one function with a pointer-like result, so the nilness transfer function runs); random packages come from hx.NewRand(seed)",
-    "samples": [{"package": p["Name"], "snippets": p["Snippets"], "source_head": src_of(p)[:600]} for p in (pkgs[:1] + [q for q in pkgs if q["Name"].startswith("rand_")][:1])],
+    "samples": [{"package": p["Name"], "snippets": p["Snippets"], "source_head": src_of(p)[:600]} for p in ([q for q in pkgs if not q.get("BinaryOnly")][:1] + [q for q in pkgs if q["Name"].startswith("rand_")][:1])],
     "programs": len(pkgs),
     "instruction_kinds_universe": len(U_instr),
     "instruction_kinds_covered_in_nilness_analysed_functions": len(kinds_cov),
